@@ -533,6 +533,24 @@ func c07Sentinels() []*genCase {
 	add("aliases of builtins and containers", &Desc{Name: "org.example.plainalias", Mems: []Mem{{Kind: 't', Name: "I", T: base(kInt)}, {Kind: 't', Name: "S", T: base(kString)}, {Kind: 't', Name: "F", T: base(kFloat)}, {Kind: 't', Name: "B", T: base(kBool)},
 		{Kind: 't', Name: "L", T: wrap(kArray, base(kObject))}, {Kind: 't', Name: "Mp", T: wrap(kMap, alias("I"))}, {Kind: 't', Name: "O", T: wrap(kMaybe, alias("S"))},
 		{Kind: 'm', Name: "M", In: strct(Fld{"i", alias("I")}, Fld{"s", alias("S")}, Fld{"f", alias("F")}, Fld{"b", alias("B")}, Fld{"l", alias("L")}), Out: strct(Fld{"m", alias("Mp")}, Fld{"o", alias("O")}, Fld{"oo", wrap(kMaybe, alias("O"))})}}}, 0)
+	wide := func(prefix string, n int) *Ty {
+		t := strct()
+		kinds := []*Ty{base(kInt), base(kString), base(kBool), base(kFloat), wrap(kMaybe, base(kInt)), wrap(kArray, base(kString)), wrap(kMap, base(kInt)), wrap(kArray, wrap(kArray, base(kInt))), wrap(kMap, wrap(kMaybe, base(kString))), enum("on", "off"), wrap(kArray, wrap(kMaybe, enum("a", "b", "c")))}
+		for i := 0; i < n; i++ {
+			t.Fields = append(t.Fields, Fld{fmt.Sprintf("%s%d_x", prefix, i), kinds[i%len(kinds)]})
+		}
+		return t
+	}
+	add("many fields, many errors, shared field names", &Desc{Name: "org.Example.wIde", Mems: []Mem{
+		{Kind: 'e', Name: "First", T: wide("f", 3)},
+		{Kind: 'm', Name: "Wide", In: wide("f", 14), Out: wide("f", 13)},
+		{Kind: 'e', Name: "Second", T: wide("f", 12)},
+		{Kind: 't', Name: "A1", T: strct(Fld{"v", base(kInt)})}, {Kind: 't', Name: "A2", T: wrap(kArray, alias("A1"))}, {Kind: 't', Name: "A3", T: wrap(kMap, alias("A2"))},
+		{Kind: 'm', Name: "Chain", In: strct(Fld{"f0_x", alias("A3")}, Fld{"f1_x", wrap(kMaybe, alias("A2"))}), Out: strct(Fld{"f0_x", alias("A1")}, Fld{"f1_x", alias("A3")})},
+		{Kind: 'e', Name: "Third", T: strct(Fld{"f0_x", alias("A2")})},
+		{Kind: 'e', Name: "Fourth"},
+		{Kind: 'm', Name: "Last", In: strct(), Out: wide("g", 2)},
+		{Kind: 'e', Name: "Fifth", T: strct(Fld{"why", base(kString)}, Fld{"code", base(kInt)})}}}, 0)
 	add("no errors and no object type", &Desc{Name: "org.example.plain", Mems: []Mem{{Kind: 'm', Name: "M", In: strct(Fld{"a", base(kInt)}), Out: strct(Fld{"b", base(kFloat)})}}}, 0)
 	add("enum fields and alias of enum", &Desc{Name: "org.example.enums", Mems: []Mem{{Kind: 't', Name: "Color", T: enum("red", "green", "type")}, {Kind: 'm', Name: "M", In: strct(Fld{"c", alias("Color")}, Fld{"inline", enum("a", "b")}), Out: strct(Fld{"cs", wrap(kArray, alias("Color"))}, Fld{"e", wrap(kMaybe, enum("x", "y"))})}}}, 0)
 	add("many members", func() *Desc {
